@@ -101,15 +101,18 @@ fn parse_advanced_quantity<'i>(bp: &mut BlockParser<'_, 'i>) -> Option<ParsedQua
 
     let value_tokens = bp.consume_while(|t| !matches!(t, T![word]));
 
-    if value_tokens.is_empty() || value_tokens.last().unwrap().kind != T![ws] {
+    // the value and the unit have to be separated by blank space, a line
+    // break counts
+    if value_tokens.is_empty()
+        || !matches!(value_tokens.last().unwrap().kind, T![ws] | T![newline])
+    {
         return None;
     }
     let value_tokens = {
         // beginning already trimmed
         let end_pos = value_tokens
             .iter()
-            .rposition(|t| !matches!(t.kind, T![ws] | T![block comment]))
-            .unwrap(); // ws_comments were already cosumed and then checked non empty
+            .rposition(|t| !matches!(t.kind, T![ws] | T![newline] | T![block comment]))?;
         &value_tokens[..=end_pos]
     };
 
@@ -156,7 +159,12 @@ fn value(bp: &mut BlockParser) -> QuantityValue {
 }
 
 fn scaling_lock(bp: &mut BlockParser) -> Option<Span> {
-    bp.ws_comments();
+    bp.consume_while(|t| {
+        matches!(
+            t,
+            T![ws] | T![newline] | T![line comment] | T![block comment]
+        )
+    });
 
     match bp.peek() {
         T![=] => {
@@ -226,7 +234,11 @@ fn range_value(tokens: &[Token], bp: &BlockParser) -> Option<Result<Value, Sourc
 }
 
 fn not_ws_comment(t: &Token) -> bool {
-    !matches!(t.kind, T![ws] | T![line comment] | T![block comment])
+    // a line break inside the braces is a soft break, it counts as blank space
+    !matches!(
+        t.kind,
+        T![ws] | T![newline] | T![line comment] | T![block comment]
+    )
 }
 
 fn trim_tokens(s: &[Token]) -> &[Token] {
